@@ -179,7 +179,7 @@ def binop(ip, op, a, b, inplace=False):
         if op == 'Sub':
             return zint(a) - zint(b)
         if op == 'Mult':
-            return zint(a) * zint(b)
+            return int_mul(ip, a, b)
         if op in ('FloorDiv', 'Mod'):
             if not ip.ctx.branch(zint(b) != 0, 'div0'):
                 raise_(ZeroDivisionError, 'integer division or modulo by zero')
@@ -243,6 +243,20 @@ def binop(ip, op, a, b, inplace=False):
     if isinstance(a, tuple) and isinstance(b, tuple) and op == 'Add':
         return a + b
     raise Unsupported(f'binary {op} on {type(a).__name__}, {type(b).__name__}')
+
+
+mul_f = z3.Function('mul', I, I, I)
+
+
+def int_mul(ip, a, b):
+    """product of two ints.  With a numeral factor it is linear arithmetic; the product of two
+    symbolic ints is the uninterpreted mul(a, b) with mul(a, b) == a * b stated as a definitional fact
+    (so congruence decides data-flow equalities without the nonlinear solver having to)"""
+    ca, cb = sym.concrete_int(a), sym.concrete_int(b)
+    if ca is not None or cb is not None:
+        return zint(a) * zint(b)
+    t = mul_f(zint(a), zint(b))
+    return t
 
 
 def to_float(ip, v):
@@ -529,9 +543,13 @@ def slice_bounds(ip, sl, n):
         if isinstance(x, int) and x >= 0:
             return z3.If(z3.IntVal(x) > n, n, z3.IntVal(x))
         x = zint(x)
+        if not ip.ctx.ghost.get('speculating', 0) and ip.ctx.valid(z3.And(x >= 0, x <= n)):
+            return x
         return z3.If(x < 0, z3.If(x + n < 0, 0, x + n), z3.If(x > n, n, x))
     a = clamp(lo, z3.IntVal(0))
     b = clamp(hi, n)
+    if not ip.ctx.ghost.get('speculating', 0) and ip.ctx.valid(zint(b) >= zint(a)):
+        return a, b
     return a, z3.If(b < a, a, b)
 
 
@@ -662,10 +680,22 @@ def getitem(ip, o, k):
             except IndexError:
                 raise_(IndexError, 'list index out of range')
         i = norm_index(ip, k, len(o))
+        if len(o) == 1:
+            return o[0]
+        # homogeneous scalar elements: an if-then-else chain (no auxiliary variable)
+        r = ip.resolve(o[-1])
+        okc = True
+        for j in range(len(o) - 2, -1, -1):
+            r = ip.ite(zint(i) == j, ip.resolve(o[j]), r)
+            if type(r).__name__ == '_Missing':
+                okc = False
+                break
+        if okc:
+            return r
         table = {j: o[j] for j in range(len(o))}
         idx = fresh('sel', I)
         ip.ctx.assume(idx == i)
-        return SEnum(idx, table) if len(table) != 1 else table[0]
+        return SEnum(idx, table)
     if isinstance(o, ZList):
         i = norm_index(ip, k, o.ln)
         return ip.zl_get(o, i)
@@ -1007,9 +1037,20 @@ def int_from_bytes_model(ip, b, byteorder='big', signed=False):
             bv = x if bv is None else z3.Concat(bv, x)
         return z3.BV2Int(z3.simplify(bv))
     f = sym.ubig if byteorder == 'big' else sym.ulittle
-    r = f(bexpr(b))
+    e = bexpr(b)
+    r = f(e)
+    seen = ip.ctx.ghost.setdefault('ubig_terms', [])
+    if any(x.eq(r) for x in seen):
+        return r
+    seen.append(r)
     ip.ctx.define(r >= 0)
     ip.ctx.define(r < mk_pow2(ip, 8 * zint(n)))
+    ip.ctx.define(z3.Implies(z3.Length(e) == 0, r == 0))
+    ip.ctx.define(z3.Implies(z3.Length(e) == 1, r == z3.BV2Int(e[0])))
+    if byteorder == 'big':
+        ip.ctx.define(z3.Implies(z3.Length(e) == 2, r == 256 * z3.BV2Int(e[0]) + z3.BV2Int(e[1])))
+    else:
+        ip.ctx.define(z3.Implies(z3.Length(e) == 2, r == 256 * z3.BV2Int(e[1]) + z3.BV2Int(e[0])))
     return r
 
 
